@@ -6,8 +6,8 @@ scratch=$(mktemp -d /tmp/fsv-mut-XXXXXX)
 trap 'rm -rf "$scratch"' EXIT
 mkdir -p "$scratch/repo" "$scratch/verif"
 rsync -a --exclude .git /repo/ "$scratch/repo/"
-cp /verif/known_findings.json "$scratch/verif/" 2>/dev/null
-[ -d /verif/replay/witness ] && mkdir -p "$scratch/verif/replay" && cp -r /verif/replay/witness "$scratch/verif/replay/"
+cp /verif/known_findings.json /verif/bounded_checks.json /verif/prop_notes.json "$scratch/verif/" 2>/dev/null
+mkdir -p "$scratch/verif/replay" && cp -r /verif/replay/witness /verif/replay/bounded /verif/replay/templates "$scratch/verif/replay/"
 (cd "$scratch/repo" && patch -p1 -s < "$patch") || { echo "PATCH-FAILED"; exit 3; }
 VERIF_REPO="$scratch/repo" VERIF_DIR="$scratch/verif" /verif/bin/fsv check "$id" "$@"
 rc=$?
